@@ -24,7 +24,7 @@ CONSTANTS Msgs,       \* response bodies: sequences of [k, m, tag, af]
           IfNone,     \* whether process_response is also tried with iface = None
           ConnCfg,    \* {<<key, iface>>} AddConnected may install
           Mtu,        \* the mtu the router's send_updates passes on (1400 = DEFAULT_MTU)
-          QueryMtus,  \* mtus Query tries
+          Queries,    \* {<<iface, force, static_only, mtu>>} Query tries
           D           \* export depth
 
 VARIABLES rt,         \* the router (RipCore)
@@ -43,7 +43,7 @@ Init == /\ rt = Router0
 
 Log(a, args, exp) ==
   /\ last' = [a |-> a, args |-> args, exp |-> exp]
-  /\ hist' = Append(hist, [a |-> a, args |-> args, exp |-> exp])
+  /\ hist' = IF D = 0 THEN hist ELSE Append(hist, [a |-> a, args |-> args, exp |-> exp])   \* D = 0: model checking only
 
 \* the subclass's receive path: process_response, then sync_table
 Response(n, i, ents) ==
@@ -106,7 +106,7 @@ IfChoices(n) == IF IfNone THEN {IfOf[n], "none"} ELSE {IfOf[n]}
 NextResponse == \E n \in Nbrs, ents \in Msgs : \E i \in IfChoices(n) : Response(n, i, ents)
 NextTimeout == \E k \in Keys : Timeout(k)
 NextGarbage == \E k \in Keys : Garbage(k)
-NextQuery == \E i \in Ifaces, f \in BOOLEAN, so \in BOOLEAN, mtu \in QueryMtus : Query(i, f, so, mtu)
+NextQuery == \E q \in Queries : Query(q[1], q[2], q[3], q[4])
 NextAddStatic == \E c \in StaticCfg : AddStatic(c[1], c[2], c[3])
 NextAddConnected == \E c \in ConnCfg : AddConnected(c[1], c[2])
 NextAddLocal == \E c \in LocalCfg : AddLocal(c[1], c[2])
